@@ -322,6 +322,7 @@ class SmartSession:
         kw["states"] = None if cfg["states"] is None else members([(s[0], s[1]) for s in cfg["states"]],
                                                                   lambda i: ST_CLASSES[i])
         self.sim = StubSmartSim(**kw)
+        self.rw.finish()
         sim = self.sim
         # iteration orders of the live sets
         self.done_list = list(sim._dones) if hasattr(sim, "_dones") else None
@@ -588,6 +589,12 @@ def gen_population(rng, max_agents=7):
         if desc.get("overlap0") is not None:
             desc["overlap0"] = [[e + shift, [x + shift for x in s_]] for e, s_ in desc["overlap0"]]
     encs = sorted({a["enc"] for a in desc["agents"]})
+    if len(encs) > 1 and rng.random() < 0.15:
+        # a history: encodings re-assigned through the public setter after the components were built
+        enc0 = [a["enc"] for a in desc["agents"]]
+        rng.shuffle(enc0)
+        if enc0 != [a["enc"] for a in desc["agents"]]:
+            desc["enc0"] = enc0
     amap = gen_amap(rng, n)
     emap = gen_emap(rng, encs)
     stale = False
@@ -757,6 +764,9 @@ class DoneProp(core.Prop):
             self._note_runtime(f"valid done component configuration rejected at construction: "
                                f"{type(ex).__name__}: {ex}", {"kind": "comp", "world": world, "comp": comp})
             return None
+        rw.finish()
+        if world.get("enc0"):
+            extra_tags = list(extra_tags) + ["encodings-reassigned-after-construction"]
         if world.get("earlier") is not None and world.get("state") is not None:
             # a history: the same component object has already been asked about an earlier state of the same
             # world (other agents alive, possibly as many of them); its answers depend on the current state only
@@ -867,9 +877,11 @@ class DoneProp(core.Prop):
         for i in range(npop):
             world, amap, emap, stale = gen_population(rng)
             try:
-                rw = gridw.RealWorld(world)
+                rw = gridw.RealWorld({k: v for k, v in world.items() if k != "enc0"})
             except ValueError:
                 continue
+            if world.get("enc0"):
+                rw = None           # every component gets the history of its own (built before the re-assignment)
             n = len(world["agents"])
             amap2 = gen_amap(rng, n) if rng.random() < 0.5 else []
             extra = ["stale-pos"] if stale else []
@@ -900,12 +912,15 @@ class DoneProp(core.Prop):
             amap = comp.get("amap", [])
             if world.get("earlier") is not None:
                 yield dict(desc, world={k: v for k, v in world.items() if k != "earlier"})
+            if world.get("enc0") is not None:
+                yield dict(desc, world={k: v for k, v in world.items() if k != "enc0"})
             for i in range(n - 1, -1, -1):           # drop an agent no mapping item mentions
                 if n > 1 and all(i not in (a, t) for a, t in amap):
                     w2 = copy.deepcopy(world)
                     del w2["agents"][i], w2["state"][i]
                     if w2.get("earlier") is not None:
                         del w2["earlier"][i]
+                    w2.pop("enc0", None)             # (a permutation of the encodings: void once an agent is gone)
                     ren = lambda x: x - 1 if x > i else x  # noqa: E731
                     yield dict(desc, world=w2, comp=dict(comp, amap=[[ren(a), ren(t)] for a, t in amap])
                                if "amap" in comp else comp)
